@@ -105,7 +105,7 @@ class FileHeaderRule(BaseLintRule):  # thailint: ignore[srp]
 
         config = self._load_config(context)
 
-        if self._should_ignore_file(context, config):
+        if not config.enabled or self._should_ignore_file(context, config):
             return []
 
         return self._check_language_header(context, config)
